@@ -227,6 +227,12 @@ pub fn check_case(case: &Case11, rng: &mut Rng, thorough: bool, rep: &mut Report
         } else {
             any_non = true;
         }
+        if want != got && orc.re.meta.is_match(w) != want {
+            // the regex library contradicts itself on this line (optimised
+            // engine vs NFA simulation): recorded under C01, no verdict here
+            rep.count("skipped_regex_engine_disagrees_with_itself");
+            continue;
+        }
         if want != got {
             // the known regex-engine quirk cannot show here (isolated line)
             rep.violation(
